@@ -441,3 +441,26 @@ _ROUND8 = {
 }
 for _k, _v in _ROUND8.items():
     CLAIMS[_k]['text'] += _v
+
+_ROUND9 = {
+ 'C03': ' Also: a transport that ends leaves every namespace - the handler '
+        'containing a failing namespace lies inside the loop, mark and '
+        'release are paired on every exit (shared C11.R2).',
+ 'C05': ' Also: who may write the per-transport reassembly buffer '
+        '(_binary_packet): the message handler and the transport-end '
+        'release only.',
+ 'C06': ' Also: who may touch the callbacks table: __init__, '
+        '_generate_ack_id, trigger_callback, basic_disconnect (and private '
+        'helpers only they call); log statements excepted.',
+ 'C07': ' Also: the pub/sub layer does not touch the callbacks table itself '
+        '(shared C06.R8).',
+ 'C11': ' Also: the handler that contains a failing namespace of an ending '
+        'transport lies inside the loop over the namespaces.',
+ 'C15': ' Also: every (re)start of the Redis backends\' _listen subscribes '
+        'the pubsub object it is about to iterate, on every path.',
+ 'C20': ' Also: is_connected reads the disconnecting mark before the '
+        'membership (the reader order that matches basic_disconnect\'s '
+        'writer order).',
+}
+for _k, _v in _ROUND9.items():
+    CLAIMS[_k]['text'] += _v
